@@ -111,7 +111,7 @@ class IndexRun:
     def _env(self):
         os.environ.update(DB_DIRECTORY=self.dir, DAEMON_URL='http://u:p@localhost:1/', COIN='BitcoinSV',
                           NET='regtest', REORG_LIMIT=str(self.reorg_limit), CACHE_MB='10', PEER_DISCOVERY='off',
-                          SERVICES='', DB_ENGINE='verifleveldb')
+                          SERVICES='', DB_ENGINE='verifleveldb', COST_SOFT_LIMIT='0', COST_HARD_LIMIT='0')
         from electrumx.server.env import Env
         env = Env()
         lab = self
@@ -124,6 +124,9 @@ class IndexRun:
                 return lab.prefetch
         env.coin = Coin
         return env
+
+    def make_notes(self):
+        return Notes(self)
 
     def boot(self):
         from electrumx.server.db import DB
@@ -143,7 +146,8 @@ class IndexRun:
         self.daemon = FakeDaemon(self)
         # Controller.serve queries the daemon once before anything starts, so a height is always cached
         self.daemon._h = self.tree.blocks[self.best].height
-        self.bp = BlockProcessor(self.env, self.db, self.daemon, Notes(self))
+        self.notes = self.make_notes()
+        self.bp = BlockProcessor(self.env, self.db, self.daemon, self.notes)
         self.bp.polling_delay = 5
         bp = self.bp
         real_advance = bp.advance_block
